@@ -16,11 +16,13 @@ import (
 	"os"
 	"strings"
 	"sync"
+	"sync/atomic"
 	"syscall"
 	"time"
 
 	"github.com/miscreant/miscreant.go"
 
+	basetime "example.com/scion-time/base/timebase"
 	"example.com/scion-time/core/client"
 	"example.com/scion-time/core/timebase"
 	"example.com/scion-time/driver/clocks"
@@ -29,6 +31,18 @@ import (
 
 	"verifharness/lib"
 )
+
+// The clock the clients read through timebase.Now(): the system clock plus a
+// jump the scripted peer can switch on (case kinds *.late: the deadline has
+// passed whenever the client asks while it handles a datagram).
+type lateClock struct {
+	basetime.SystemClock
+	jump atomic.Int64
+}
+
+func (c *lateClock) Now() time.Time { return c.SystemClock.Now().Add(time.Duration(c.jump.Load())) }
+
+var theClock *lateClock
 
 // ---- observation ----
 type xevent struct {
@@ -70,6 +84,62 @@ func (h errHandler) Handle(_ context.Context, rec slog.Record) error {
 }
 func (h errHandler) WithAttrs([]slog.Attr) slog.Handler { return h }
 func (h errHandler) WithGroup(string) slog.Handler      { return h }
+
+// logRec is the logger of a client without filter: the four timestamps of an accepted
+// exchange are reconstructed from the two debug records the client writes ("received
+// response": the packet and the receive stamp; "evaluated response": offset and delay).
+type logRec struct {
+	r      *recorder
+	mu     sync.Mutex
+	t1, t2 time.Time
+}
+
+func (h *logRec) Enabled(context.Context, slog.Level) bool { return true }
+func (h *logRec) WithAttrs([]slog.Attr) slog.Handler       { return h }
+func (h *logRec) WithGroup(string) slog.Handler            { return h }
+func (h *logRec) Handle(_ context.Context, rec slog.Record) error {
+	h.mu.Lock()
+	defer h.mu.Unlock()
+	switch rec.Message {
+	case "received response":
+		var at time.Time
+		var pkt *ntp.Packet
+		rec.Attrs(func(a slog.Attr) bool {
+			switch a.Key {
+			case "at":
+				at = a.Value.Time()
+			case "data":
+				if v, ok := a.Value.Any().(ntp.PacketLogValuer); ok {
+					pkt = v.Pkt
+				}
+			}
+			return true
+		})
+		if pkt != nil {
+			h.t1, h.t2 = ntp.TimeFromTime64(pkt.ReceiveTime, at), ntp.TimeFromTime64(pkt.TransmitTime, at)
+		}
+	case "evaluated response":
+		var at time.Time
+		var off, rtd time.Duration
+		rec.Attrs(func(a slog.Attr) bool {
+			switch a.Key {
+			case "at":
+				at = a.Value.Time()
+			case "clock offset":
+				off = a.Value.Duration()
+			case "round trip delay":
+				rtd = a.Value.Duration()
+			}
+			return true
+		})
+		// basic mode only: t3 = at, rtd = (t3 - t0) - (t2 - t1)
+		t0 := at.Add(-rtd - h.t2.Sub(h.t1))
+		h.r.mu.Lock()
+		h.r.events = append(h.r.events, xevent{rec: [4]time.Time{t0, h.t1, h.t2, at}, off: off})
+		h.r.mu.Unlock()
+	}
+	return nil
+}
 
 type nullHandler struct{}
 
@@ -126,6 +196,9 @@ type opSpec struct {
 	scripts  [][]recipe
 	timeouts []bool
 	pauseMs  int64
+	server   int  // which of the peer's two addresses the caller passes as the remote address
+	keTarget int  // which of them a key exchange made during this call names
+	keOne    bool // a key exchange made during this call delivers one cookie only
 }
 
 type histSpec struct {
@@ -133,6 +206,11 @@ type histSpec struct {
 	auth                 bool // SCION: Auth.Enabled (packet authenticator, DRKey)
 	sameIA               bool // SCION: the server is in the client's ISD-AS
 	addrtype             bool // SCION: case kind scion.addrtype
+	late                 bool // the client's clock jumps past the deadline as soon as the request has left (kinds *.late)
+	nofilter             bool // client without Filter: observed through its debug log and the returned offset
+	v6                   bool // IP client on the IPv6 loopback address
+	servers              bool // two servers: other remote address per call, key exchanges naming the other address
+	mappedRemote         bool // IP client: the remote address is passed in its IPv4-mapped 16-byte form
 	ops                  []opSpec
 }
 
@@ -260,6 +338,18 @@ func matchTime(x ntp.Time64, near time.Time) time.Time {
 }
 
 func addrNum(a netip.Addr) int64 {
+	if !a.IsValid() {
+		return -2
+	}
+	if !a.Is4() {
+		// IPv6: the low 48 bits, marked (::1 -> 2^48 + 1)
+		b := a.As16()
+		v := int64(1) << 48
+		for _, x := range b[10:] {
+			v = v<<8 | int64(x)
+		}
+		return v
+	}
 	b := a.As4()
 	return int64(b[0])<<24 | int64(b[1])<<16 | int64(b[2])<<8 | int64(b[3])
 }
@@ -283,6 +373,9 @@ func (w *worker) runHist(h histSpec) {
 	callLog := slog.New(errHandler{rec})
 	quiet := slog.New(nullHandler{})
 	c := &client.IPClient{Log: quiet, InterleavedMode: h.imode, Filter: rec}
+	if h.nofilter {
+		c.Filter, c.Log = nil, slog.New(&logRec{r: rec})
+	}
 	if h.nts {
 		c.Auth.Enabled = true
 		c.Auth.NTSKEFetcher.Log = quiet
@@ -293,8 +386,15 @@ func (w *worker) runHist(h histSpec) {
 	}
 	w.mu.Lock()
 	w.nts = h.nts
+	w.lateMode = h.late
 	w.prevPkt, w.prevUID = nil, nil
 	w.mu.Unlock()
+	defer func() {
+		w.mu.Lock()
+		w.lateMode, w.keTarget, w.keCookies = false, 0, 0
+		w.mu.Unlock()
+		theClock.jump.Store(0)
+	}()
 
 	var calls []*callObs
 	for _, op := range h.ops {
@@ -310,6 +410,10 @@ func (w *worker) runHist(h histSpec) {
 		}
 		w.mu.Lock()
 		w.scripts, w.timeouts, w.reqs = op.scripts, op.timeouts, nil
+		w.keTarget, w.keCookies = op.keTarget, 0
+		if op.keOne {
+			w.keCookies = 1
+		}
 		w.mu.Unlock()
 		rec.mu.Lock()
 		rec.events = nil
@@ -319,11 +423,22 @@ func (w *worker) runHist(h histSpec) {
 			d := 8 * time.Second
 			if len(op.timeouts) > 0 && op.timeouts[0] {
 				d = 600 * time.Millisecond
+				if h.nts && len(c.Auth.NTSKEFetcher.VerifData().Cookie) == 0 {
+					// this call starts with a key exchange over TLS: it must not miss the deadline under load
+					d = 4 * time.Second
+				}
 			}
 			ctx, cancel = context.WithTimeout(ctx, d)
 		}
 		la := &net.UDPAddr{IP: net.IP(w.addrA.AsSlice())}
-		ra := &net.UDPAddr{IP: net.IP(w.addrA.AsSlice()), Port: w.udpPort()}
+		srv := w.addrA
+		if op.server == 1 {
+			srv = w.addrB
+		}
+		ra := &net.UDPAddr{IP: net.IP(srv.AsSlice()), Port: w.udpPort()}
+		if h.mappedRemote {
+			ra.IP = ra.IP.To16() // the remote address in its IPv4-mapped form: the same host
+		}
 		done := make(chan struct{})
 		co := &callObs{spec: op}
 		go func() {
@@ -351,6 +466,7 @@ func (w *worker) runHist(h histSpec) {
 		}
 		tick.Stop()
 		cancel()
+		theClock.jump.Store(0)
 		if waited >= 1 && os.Getenv("C05_DEBUG") != "" {
 			fmt.Fprintf(os.Stderr, "slow call: waited=%d imode=%v nts=%v dl=%v scripts=%v timeouts=%v err=%v\n", waited, h.imode, h.nts, h.deadline, op.scripts, op.timeouts, co.err)
 		}
@@ -366,7 +482,21 @@ func (w *worker) runHist(h histSpec) {
 		}
 		calls = append(calls, co)
 	}
-	w.emit(h, calls, "ip.hist")
+	w.emit(h, calls, ipKind(h))
+}
+
+func ipKind(h histSpec) string {
+	switch {
+	case h.late:
+		return "ip.late"
+	case h.nofilter:
+		return "ip.nofilter"
+	case h.v6:
+		return "ip6.hist"
+	case h.servers:
+		return "ip.servers"
+	}
+	return "ip.hist"
 }
 
 func bl(bs [][]byte) string {
@@ -388,7 +518,7 @@ func recipeVals(rs []recipe, timeout bool) string {
 }
 
 func (w *worker) emit(h histSpec, calls []*callObs, kind string) {
-	scion := kind != "ip.hist"
+	scion := strings.HasPrefix(kind, "scion")
 	// flatten the exchanges to find, for each, the request that follows it
 	type xref struct{ c, k int }
 	var order []xref
@@ -400,16 +530,26 @@ func (w *worker) emit(h histSpec, calls []*callObs, kind string) {
 			order = append(order, xref{ci, k})
 		}
 	}
+	// the next request that quotes the state recorded in exchange (ci, k): the next interleaved one,
+	// unless a reset or another accepted exchange (which overwrites the state) lies in between
 	nextReq := func(ci, k int) *reqRec {
 		for i, x := range order {
-			if x.c == ci && x.k == k && i+1 < len(order) {
-				// only if no reset lies in between
-				for j := ci + 1; j <= order[i+1].c; j++ {
-					if calls[j].spec.kind == 1 {
-						return nil
+			if x.c == ci && x.k == k {
+				for n := i + 1; n < len(order); n++ {
+					for j := order[n-1].c + 1; j <= order[n].c; j++ {
+						if calls[j].spec.kind == 1 {
+							return nil
+						}
+					}
+					rq2 := calls[order[n].c].reqs[order[n].k]
+					if rq2.org != (ntp.Time64{}) || rq2.rx != (ntp.Time64{}) {
+						return rq2
+					}
+					if evs := calls[order[n].c].events; order[n].k >= len(evs) || evs[order[n].k].err == nil {
+						return rq2
 					}
 				}
-				return calls[order[i+1].c].reqs[order[i+1].k]
+				return nil
 			}
 		}
 		return nil
@@ -450,18 +590,27 @@ func (w *worker) emit(h histSpec, calls []*callObs, kind string) {
 			var evs []string
 			nbad := 0
 			for i, d := range rq.sent {
-				src := addrNum(w.addrA)
+				src := addrNum(rq.server)
 				if !d.fromServer {
-					src = addrNum(w.addrB)
+					src = addrNum(rq.other)
 				}
 				front := lib.I(src)
+				xflags := "0"
 				if scion {
 					front = d.front
+					if len(d.raw) > scionBufLen {
+						// the datagram does not fit the client's receive buffer: MSG_TRUNC
+						xflags = "1"
+						tags["truncated"] = true
+					}
 				}
 				// the packet authenticator clause: the client holds the host-host key and the datagram carries
 				// an authenticator for the server's SPI and algorithm whose MAC does not verify
 				spaoOK := !(scion && h.auth && d.vi.e2e && d.vi.auth == 2)
-				evs = append(evs, lib.L("0", "1", "0", front, lib.B(d.payload), lib.I(crx.UnixNano()),
+				if rq.late {
+					tags["late"] = true
+				}
+				evs = append(evs, lib.L("0", lib.Bool(!rq.late), xflags, front, lib.B(d.payload), lib.I(crx.UnixNano()),
 					lib.Bool(d.fromServer), lib.Bool(d.uidOK), lib.Bool(d.authOK), bl(d.cookies), lib.Bool(spaoOK)))
 				if scion && i < len(rq.recipes) {
 					if d.vi.e2e {
@@ -505,7 +654,11 @@ func (w *worker) emit(h histSpec, calls []*callObs, kind string) {
 			if !h.nts {
 				s2c = nil
 			}
-			env := lib.L(lib.I(ref.UnixNano()), lib.I(ctx1.UnixNano()), lib.B(uid), lib.B(s2c), lib.Bool(scion && h.auth), lib.Bool(ireq), bl(rq.ke))
+			env := lib.L(lib.I(ref.UnixNano()), lib.I(ctx1.UnixNano()), lib.B(uid), lib.B(s2c), lib.Bool(scion && h.auth), lib.Bool(ireq), bl(rq.ke),
+				lib.I(addrNum(rq.server)), lib.I(int64(rq.port)))
+			if rq.server != w.addrA {
+				tags["second-server"] = true
+			}
 			if scion && h.auth != rq.reqAuth {
 				tags["request-authenticator-unexpected"] = true
 			}
@@ -549,7 +702,7 @@ func (w *worker) emit(h histSpec, calls []*callObs, kind string) {
 		for k := len(co.reqs); k < len(co.spec.scripts); k++ {
 			unused = append(unused, recipeVals(co.spec.scripts[k], co.spec.timeouts[k]))
 		}
-		ops = append(ops, lib.L("0", lib.L(xs...), lib.L(unused...)))
+		ops = append(ops, lib.L("0", lib.L(xs...), lib.L(unused...), lib.L(lib.I(int64(co.spec.server)), lib.I(int64(co.spec.keTarget)), lib.Bool(co.spec.keOne), lib.Bool(h.mappedRemote))))
 		off := int64(0)
 		if co.err == nil {
 			off = int64(co.off)
@@ -638,6 +791,10 @@ func histOfArgs(args string) (histSpec, bool) {
 					op.timeouts = append(op.timeouts, to)
 				}
 			}
+			if len(o.l) > 3 && len(o.l[3].l) == 4 {
+				op.server, op.keTarget, op.keOne = int(o.l[3].l[0].z), int(o.l[3].l[1].z), o.l[3].l[2].z != 0
+				h.mappedRemote = o.l[3].l[3].z != 0
+			}
 			h.ops = append(h.ops, op)
 		}
 	}
@@ -656,7 +813,8 @@ func main() {
 		}
 	}
 	a := lib.ParseArgs()
-	timebase.RegisterClock(clocks.NewSystemClock(slog.New(nullHandler{}), 0))
+	theClock = &lateClock{SystemClock: clocks.NewSystemClock(slog.New(nullHandler{}), 0)}
+	timebase.RegisterClock(theClock)
 	_ = ntske.ServerPortIP
 	pid := os.Getpid()
 	addrA := netip.AddrFrom4([4]byte{127, 5, byte(pid / 256), byte(pid % 256)})
@@ -668,11 +826,25 @@ func main() {
 		w := newWorker(0, a.Seed, addrA, addrB)
 		w.startSCION()
 		for _, l := range lib.ReplayLines(a.Replay) {
+			if l[0] == "client.badlocal" {
+				runBadLocal(w)
+				continue
+			}
 			if h, ok := histOfArgs(l[2]); ok {
-				if l[0] == "ip.hist" {
+				h.auth = strings.HasSuffix(l[0], "auth")
+				h.late = strings.Contains(l[0], ".late")
+				h.nofilter = strings.HasSuffix(l[0], ".nofilter")
+				h.servers = strings.HasSuffix(l[0], ".servers")
+				h.addrtype = l[0] == "scion.addrtype"
+				switch {
+				case l[0] == "ip6.hist":
+					h.v6 = true
+					if w6 := newWorker6(a.Seed); w6 != nil {
+						w6.runHist(h)
+					}
+				case strings.HasPrefix(l[0], "ip"):
 					w.runHist(h)
-				} else {
-					h.auth = strings.HasSuffix(l[0], "auth")
+				default:
 					w.runHistSCION(h, l[0])
 				}
 			}
@@ -729,7 +901,46 @@ func main() {
 				h := genHistAddrType(r)
 				w.runHistSCION(h, scionKind(h))
 			}
+			// clients without filter (the tool commands of timeservice.go), observed through their debug log
+			for j := 0; j < n/20+2; j++ {
+				h := genHist(r, false, false)
+				h.imode, h.nofilter = false, true
+				fixScripts(&h)
+				w.runHist(h)
+				hs := genHistSCION(r, false, false, false)
+				hs.imode, hs.nofilter = false, true
+				fixScripts(&hs)
+				w.runHistSCION(hs, scionKind(hs))
+			}
+			// two servers
+			for j := 0; j < n/8+2; j++ {
+				w.runHist(genHistServers(r, j%2 == 0))
+				hs := genHistServersSCION(r, j%3 == 0)
+				w.runHistSCION(hs, scionKind(hs))
+			}
 		}(i)
 	}
 	wg.Wait()
+
+	// families that run alone: the clock the clients read is one per process
+	w := newWorker(100, a.Seed*1000+100, addrA, addrB)
+	w.startSCION()
+	r := lib.NewRng(a.Seed*7777 + 100)
+	nlate := 40
+	if a.Tier == "thorough" {
+		nlate = 400
+	}
+	for j := 0; j < nlate; j++ {
+		w.runHist(genHistLate(r, j%3 == 0))
+		h := genHistLateSCION(r, j%3 == 1, j%4 == 2)
+		w.runHistSCION(h, scionKind(h))
+	}
+	runBadLocal(w)
+	if w6 := newWorker6(a.Seed); w6 != nil {
+		for j := 0; j < nlate; j++ {
+			h := genHist(r, false, false)
+			h.v6 = true
+			w6.runHist(h)
+		}
+	}
 }
